@@ -33,6 +33,14 @@
 //! (`always`, `never`, or for which `ValueKind`s).  An `add_edge` in a position
 //! the walk does not understand is an extraction failure.
 //!
+//! `c14ctx` → `Generated/C14Ctx.lean`: `context_check` and
+//! `determine_uses_context` (src/typechecker/value_cycle.rs) as lists of guarded
+//! steps (`checkSteps`, `determineSteps`): conditions and actions are classified
+//! by what they do (a kind test may be spelled as a pattern or as a call of a
+//! private predicate whose body is that pattern); anything else is an extraction
+//! failure.  `Model/TarjanCtxShape` says which lists `Model/Tarjan.determine`
+//! and `contextLoop` were written from.
+//!
 //! Every statement of these arms must be one the translator knows: a statement
 //! that consults or updates anything else (a table of earlier reads, a flag) is
 //! an extraction failure.
@@ -44,7 +52,7 @@ use std::collections::HashMap;
 use std::path::Path;
 use syn::visit::Visit;
 
-pub const TARGETS: &[Target] = &[("c14emit", "C14Emit", c14emit as Gen), ("c14read", "C14Read", c14read as Gen), ("c14edges", "C14Edges", c14edges as Gen)];
+pub const TARGETS: &[Target] = &[("c14emit", "C14Emit", c14emit as Gen), ("c14read", "C14Read", c14read as Gen), ("c14edges", "C14Edges", c14edges as Gen), ("c14ctx", "C14Ctx", c14ctx as Gen)];
 
 fn norm<T: ToTokens>(t: &T) -> String {
     t.to_token_stream().to_string().replace(' ', "")
@@ -979,5 +987,160 @@ open RotoV.TarjanEdges
 ");
     s.push_str(&format!("def exits : List Exit := [\n{}\n]\n", rows.join(",\n")));
     s.push_str("\nend RotoV.Gen.C14Edges\n");
+    Ok(s)
+}
+
+
+// ---------------------------------------------------------------------------
+// c14ctx: `context_check` / `determine_uses_context` as guarded steps
+
+/// `norm` without the trailing commas rustfmt puts into broken-up argument lists
+fn normc<T: ToTokens>(t: &T) -> String {
+    norm(t).replace(",)", ")")
+}
+
+/// does `e` test `dec.kind` for `ValueKind::<which>` — as a pattern, or through a private
+/// predicate `fn p(dec) -> bool` of the file whose body is that pattern?
+fn is_kind_test(file: &syn::File, e: &str, which: &str) -> bool {
+    let pat = format!("DeclarationKind::Value(ValueKind::{which}");
+    if e.contains(&pat) && e.contains("=dec.kind") {
+        return true;
+    }
+    // `is_constant(&dec)` / `Self::is_constant(dec)` / `dec.is_constant()`
+    for name in ident_calls(e) {
+        if let Ok(f) = find::func(file, &name, None) {
+            let b = normc(&f.block);
+            if b.contains(&pat) && !b.contains("add_edge") && f.block.stmts.len() == 1 {
+                return true;
+            }
+        }
+    }
+    false
+}
+
+/// identifiers followed by `(` in a normalised expression
+fn ident_calls(e: &str) -> Vec<String> {
+    let mut out = vec![];
+    let b = e.as_bytes();
+    let mut i = 0;
+    while i < b.len() {
+        if b[i].is_ascii_alphabetic() || b[i] == b'_' {
+            let st = i;
+            while i < b.len() && (b[i].is_ascii_alphanumeric() || b[i] == b'_') {
+                i += 1;
+            }
+            if i < b.len() && b[i] == b'(' {
+                out.push(e[st..i].to_string());
+            }
+        } else {
+            i += 1;
+        }
+    }
+    out
+}
+
+fn ctx_action(s: &syn::Stmt) -> Result<Option<&'static str>, String> {
+    let n = normc(s);
+    let n = n.trim_end_matches(';');
+    Ok(Some(match n {
+        "return*b" => "returnCached",
+        "returntrue" | "true" => "returnTrue",
+        "returnfalse" | "false" => "returnFalse",
+        "uses_context.insert(*name,true)" => "insertTrue",
+        "uses_context.insert(*name,false)" => "insertFalse",
+        "visited.insert(*name)" => "markVisited",
+        "returnErr(self.error_constant_uses_context(dec.name.ident,dec.id))" => "errUsesContext",
+        "Ok(())" => "returnOk",
+        "letdec=self.type_info.scope_graph.get_declaration(*name)" => return Ok(None),
+        "letmutvisited=BTreeSet::new()" | "letmutuses_context=BTreeMap::new()" => return Ok(None),
+        _ => return Err(format!("context check: statement `{n}` is not one the translator knows")),
+    }))
+}
+
+fn ctx_steps(file: &syn::File, b: &syn::Block, out: &mut Vec<String>) -> Result<(), String> {
+    for st in &b.stmts {
+        match st {
+            syn::Stmt::Local(l) if is_verif_cfg(&l.attrs) => {}
+            syn::Stmt::Expr(syn::Expr::If(i), _) => {
+                if i.else_branch.is_some() {
+                    return Err(format!("context check: `if … else` `{}`", norm(&i.cond)));
+                }
+                let c = normc(&i.cond);
+                let recurses = c.contains("self.determine_uses_context(");
+                let cond = if c == "letSome(b)=uses_context.get(name)" {
+                    "cached"
+                } else if c == "visited.contains(name)" {
+                    "onStack"
+                } else if recurses && c.ends_with("self.determine_uses_context(&mutuses_context,&mutvisited,name)") && is_kind_test(file, &c, "Constant") {
+                    "constAndUses"
+                } else if c == "self.determine_uses_context(uses_context,visited,reference)" {
+                    "recurse"
+                } else if !recurses && is_kind_test(file, &c, "Context") {
+                    "isCtx"
+                } else {
+                    return Err(format!("context check: condition `{c}` is not one the translator knows"));
+                };
+                let mut acts = vec![];
+                for s2 in &i.then_branch.stmts {
+                    if let Some(a) = ctx_action(s2)? {
+                        acts.push(format!(".{a}"));
+                    }
+                }
+                out.push(format!(".guard .{cond} [{}]", acts.join(", ")));
+            }
+            syn::Stmt::Expr(syn::Expr::ForLoop(f), _) => {
+                let it = normc(&f.expr);
+                let pat = norm(&f.pat);
+                let kind = if it == "self.references.references.get(name).into_iter().flatten()" && pat == "reference" {
+                    "forRefs"
+                } else if it == "self.references.references.keys()" && pat == "name" {
+                    "forKeys"
+                } else {
+                    return Err(format!("context check: loop `for {pat} in {it}`"));
+                };
+                let mut inner = vec![];
+                ctx_steps(file, &f.body, &mut inner)?;
+                out.push(format!(".{kind} [{}]", inner.join(", ")));
+            }
+            other => {
+                if let Some(a) = ctx_action(other)? {
+                    out.push(format!(".act .{a}"));
+                }
+            }
+        }
+    }
+    Ok(())
+}
+
+fn c14ctx(repo: &Path) -> Result<String, String> {
+    let file = find::parse(repo, "src/typechecker/value_cycle.rs")?;
+    let cc = find::func(&file, "context_check", None)?;
+    let du = find::func(&file, "determine_uses_context", None)?;
+    if cc.sig.inputs.len() != 1 {
+        return Err("context_check: takes more than `&self` (the model's check looks at the reference graph only)".into());
+    }
+    let mut check = vec![];
+    ctx_steps(&file, &cc.block, &mut check)?;
+    let mut det = vec![];
+    ctx_steps(&file, &du.block, &mut det)?;
+    // where it is called from: after the two cycle tests, before the order is returned
+    let fco = find::func(&file, "find_compilation_order", None)?;
+    let stmts: Vec<String> = fco.block.stmts.iter().map(|s| normc(s)).collect();
+    let pos_tarjan = stmts.iter().position(|s| s.contains("=tarjan(&self.references.references)"));
+    let pos_check = stmts.iter().position(|s| s == "self.context_check()?;");
+    let last = stmts.last().cloned().unwrap_or_default();
+    let called = match (pos_tarjan, pos_check) {
+        (Some(a), Some(b)) if a < b && b + 2 == stmts.len() && last == "Ok(components.into_iter().flatten().collect())" => true,
+        _ => return Err("find_compilation_order: `self.context_check()?;` is not the last step before `Ok(components.into_iter().flatten().collect())`".into()),
+    };
+    let mut s = String::new();
+    s.push_str("/- GENERATED by /verif/extract (target c14ctx) from src/typechecker/value_cycle.rs — do not edit. -/\nimport RotoV.Model.TarjanCtxShape\nnamespace RotoV.Gen.C14Ctx\nopen RotoV.TarjanCtxShape\n\n");
+    s.push_str("/-- `context_check`, statement by statement -/\n");
+    s.push_str(&format!("def checkSteps : List Step := [\n  {}\n]\n\n", check.join(",\n  ")));
+    s.push_str("/-- `determine_uses_context`, statement by statement -/\n");
+    s.push_str(&format!("def determineSteps : List Step := [\n  {}\n]\n\n", det.join(",\n  ")));
+    s.push_str("/-- `find_compilation_order` ends with `self.context_check()?; Ok(components.into_iter().flatten().collect())`, after `tarjan` -/\n");
+    s.push_str(&format!("def checkedBeforeOrderReturned : Bool := {called}\n"));
+    s.push_str("\nend RotoV.Gen.C14Ctx\n");
     Ok(s)
 }
